@@ -24,19 +24,31 @@ TRUSTED = ['receiver typing is origin-based over this package only (cells map su
 WRITTEN_BACK = {'value', 'need_update'}
 
 
-def _derives_from_cells(expr, fn):
-    """Does the object expression derive from a subscript of a `.cells` map?"""
-    deps = flow.Deps(fn)
-    if any(isinstance(x, ast.Subscript) and isinstance(x.value, ast.Attribute) and x.value.attr == 'cells'
-           for x in ast.walk(expr)):
+def _derives_from_map(expr, fn, mapattr):
+    """Does the object expression derive from a subscript of a `.<mapattr>` map (origin-based typing)?"""
+    def has(e):
+        return any(isinstance(x, ast.Subscript) and isinstance(x.value, ast.Attribute) and x.value.attr == mapattr
+                   for x in ast.walk(e))
+    if has(expr):
         return True
-    for nm in names_in(expr):
+    seen = set()
+    work = list(names_in(expr))
+    while work:
+        nm = work.pop()
+        if nm in seen:
+            continue
+        seen.add(nm)
         for n in walk_local(fn):
             if isinstance(n, ast.Assign) and any(isinstance(t, ast.Name) and t.id == nm for t in n.targets):
-                if any(isinstance(x, ast.Subscript) and isinstance(x.value, ast.Attribute) and x.value.attr == 'cells'
-                       for x in ast.walk(n.value)):
+                if has(n.value):
                     return True
+                if isinstance(n.value, (ast.Name, ast.Attribute, ast.Subscript)):
+                    work.extend(names_in(n.value))
     return False
+
+
+def _derives_from_cells(expr, fn):
+    return _derives_from_map(expr, fn, 'cells')
 
 
 def _no_formula_test(test):
@@ -66,8 +78,7 @@ def rule_1(ctx):
                         ctx.expect(ok, node, f'read of stored cell value `{ast.unparse(node)[:50]}`',
                                    'the stored value of a cell is returned without the dominating "cell has no formula" '
                                    'test: a formula cell would yield its stale, previously computed value')
-                elif node.attr == 'value' and isinstance(node.value, ast.Subscript) \
-                        and isinstance(node.value.value, ast.Attribute) and node.value.value.attr == 'ranges':
+                elif node.attr == 'value' and _derives_from_map(node.value, fn, 'ranges'):
                     n += 1
                     ctx.bad(node, f'read of XLRange.value in {qual}',
                             'the cached value of a range is read back instead of rebuilding the array from its cells')
